@@ -1,17 +1,17 @@
 package main
 
 import (
-	"sync"
-	"sort"
 	"fmt"
 	"go/token"
 	"go/types"
+	"sort"
 	"strings"
+	"sync"
 
 	"golang.org/x/tools/go/ssa"
 )
 
-type goPanic struct{ v Value }    // interpreted panic
+type goPanic struct{ v Value }      // interpreted panic
 type abortPath struct{ why string } // path ends (pruned / finished early)
 
 type deferred struct {
@@ -20,14 +20,14 @@ type deferred struct {
 }
 
 type frame struct {
-	run     *Run
-	fn      *ssa.Function
-	env     map[ssa.Value]Value
-	block   *ssa.BasicBlock
-	prev    *ssa.BasicBlock
-	defers  []deferred
-	result  Value
-	locals  []Value
+	run    *Run
+	fn     *ssa.Function
+	env    map[ssa.Value]Value
+	block  *ssa.BasicBlock
+	prev   *ssa.BasicBlock
+	defers []deferred
+	result Value
+	locals []Value
 }
 
 type intrinsicFn func(r *Run, fr *frame, args []Value) Value
@@ -373,11 +373,10 @@ func (fr *frame) visit(instr ssa.Instruction) cont {
 		case Array:
 			fr.env[instr] = copyVal(x[idx])
 		case StrV:
-			bs := x.bytesTerms()
-			if idx < 0 || idx >= len(bs) {
+			b := x.byteAt(idx)
+			if b == nil {
 				panic(goPanic{strLit("string index out of range")})
 			}
-			b := bs[idx]
 			if b.Op == "bvlit" {
 				fr.env[instr] = IntV{C: b.Val}
 			} else {
@@ -1037,7 +1036,7 @@ func (r *Run) typeAssert(instr *ssa.TypeAssert, x Iface) Value {
 			if _, host := x.V.(hostObj); host {
 				ok = true
 			} else {
-				ok = types.Implements(x.T, it) 
+				ok = types.Implements(x.T, it)
 			}
 		}
 		res = x
@@ -1366,19 +1365,10 @@ func (it *strIter) next(r *Run) Value {
 	if it.i >= len(it.bs) {
 		return Tuple{BoolV{C: false}, IntV{}, IntV{}}
 	}
-	b := it.bs[it.i]
 	i := it.i
-	it.i++
-	if b.Op == "bvlit" {
-		if b.Val >= 0x80 {
-			panic(unsupported("range over non-ASCII string"))
-		}
-		return Tuple{BoolV{C: true}, IntV{C: uint64(i)}, IntV{C: b.Val}}
-	}
-	if !r.branch(mk("bvult", sortBool, b, mkBV(0x80, 8))) {
-		panic(unsupported("range over non-ASCII string"))
-	}
-	return Tuple{BoolV{C: true}, IntV{C: uint64(i)}, IntV{S: mk("(_ zero_extend 24)", bv(32), b)}}
+	t, n := r.decodeAt(it.bs, i)
+	it.i += n
+	return Tuple{BoolV{C: true}, IntV{C: uint64(i)}, runeVal(t)}
 }
 
 // sliceHybrid slices a string containing atoms when both cut points fall into the leading
